@@ -75,6 +75,19 @@ fn wide_notes() -> Vec<(String, String)> {
     v
 }
 
+fn colliding_notes() -> Vec<(String, String)> {
+    let mut v = vec![];
+    let mut index = String::from("# Index\n");
+    for i in 0..40 {
+        v.push((format!("n{:02}", i), format!("# Plain {:02}\n\nfrom n{:02}.md\n", i, i)));
+        v.push((format!("n{:02}.md", i), format!("# Double {:02}\n\nfrom n{:02}.md.md\n", i, i)));
+        index.push_str(&format!("\n[x](n{:02})\n", i));
+    }
+    v.push(("index".into(), index));
+    v.sort();
+    v
+}
+
 pub fn libs() -> Vec<Lib> {
     vec![
         Lib {
@@ -151,6 +164,9 @@ pub fn libs() -> Vec<Lib> {
             ]),
             ties: &["links-in-titles", "stale-link-titles", "shared-target"],
         },
+        // only used by the fs dimension: 40 pairs of files that map to one key each (which file of a
+        // pair becomes the note must not depend on the pool size or the schedule)
+        Lib { name: "md-md-many", notes: colliding_notes(), ties: &["file-names-colliding-on-one-key"] },
         Lib { name: "wide", notes: wide_notes(), ties: &["wide", "duplicate-titles", "equal-ranks", "shared-target"] },
         // only used by the fs dimension: two FILES that liwe::fs maps to the same key
         Lib {
@@ -167,7 +183,7 @@ fn lib_named(name: &str) -> Option<Lib> {
 
 const PERM_LIBS: &[&str] = &["dup-titles", "twin-links", "cycle", "subdirs", "shared", "two-parents", "linked-titles"];
 const POOL_LIBS: &[&str] = &["dup-titles", "twin-links", "cycle", "subdirs", "shared", "two-parents", "linked-titles", "wide"];
-const FS_LIBS: &[&str] = &["dup-titles", "twin-links", "cycle", "subdirs", "shared", "two-parents", "linked-titles", "md-md"];
+const FS_LIBS: &[&str] = &["dup-titles", "twin-links", "cycle", "subdirs", "shared", "two-parents", "linked-titles", "md-md", "md-md-many"];
 
 fn state_of(lib: &Lib) -> HashMap<String, String> {
     // a fresh HashMap (fresh RandomState) every time
@@ -620,6 +636,16 @@ impl Engine for C16 {
         for name in FS_LIBS {
             let lib = by_name(name);
             let keys = keys_of(lib);
+            if keys.len() > 6 {
+                // too many files for every creation order: as listed and reversed (what is varied here
+                // is the pool size and the schedule)
+                let fwd: Vec<String> = keys.clone();
+                let mut rev = keys.clone();
+                rev.reverse();
+                emit(&format!("{}|fs-create-order|{}", name, fwd.join(",")));
+                emit(&format!("{}|fs-create-order|{}", name, rev.join(",")));
+                continue;
+            }
             for p in permutations(keys.len()) {
                 emit(&format!("{}|fs-create-order|{}", name, p.iter().map(|i| keys[*i].clone()).collect::<Vec<_>>().join(",")));
             }
@@ -893,7 +919,35 @@ the reference configuration (files created in sorted order, loaded, Database::ne
             ),
         ));
     }
-    (if labels.is_empty() { "equal".to_string() } else { format!("diff:{}", labels.iter().cloned().collect::<Vec<_>>().join("+")) }, order != sorted, fs)
+    // the same directory read in pools of other sizes (the reader hands the files to rayon)
+    // only for the library with many files: with a handful of files one thread takes them all on a
+    // quiet machine, and a difference seen under load would not show again on replay
+    if fs.is_empty() && sorted.len() > 6 {
+        // (which thread reads which file is up to rayon: every pool size is loaded several times, so
+        // that a result that depends on the schedule shows with overwhelming probability, here and
+        // again on replay)
+        'pools: for ps in [1usize, 2, 16] {
+          for rep in 0..6 {
+            let pp = pool(ps);
+            let (state_p, _) = in_pool(&pp, ps, || load_via_fs(lib, &order, &format!("{}-pool{}-{}", arg, ps, rep)));
+            let dp = in_pool(p1, 1, || dump_of(&state_p));
+            *tr += 2;
+            *counters.entry("fs_loads_in_other_pools".into()).or_insert(0) += 1;
+            let (labels_p, first_p) = diff(&dp, &reference);
+            if !labels_p.is_empty() {
+                let _ = &labels_p;
+                fs.push(fail(
+                    "pool-size",
+                    &BTreeSet::new(),
+                    feats,
+                    format!("{}\nthe directory loaded with liwe::fs::new_for_path in a pool of {} threads (load {} of 6) differs from the load in a pool of {}; first difference: {}", lib_description(lib), ps, rep + 1, INSERT_POOL, first_p),
+                ));
+                break 'pools;
+            }
+          }
+        }
+    }
+    (if labels.is_empty() && fs.is_empty() { "equal".to_string() } else { format!("diff:{}", fs.iter().map(|f| f.site.clone()).collect::<Vec<_>>().join("+")) }, order != sorted, fs)
 }
 
 fn run_hash_closure(
